@@ -22,6 +22,7 @@ detection threshold), never from the device's reset_detected output; only margin
 import hashlib
 
 from dsim.kernel import Violations
+from models.usb2_wire import gen_idle_data
 from models import usb2
 from models.usb2 import UTMIHost
 from models.usb2_ctrl import Txn, StreamFeeder, setup_bytes, is_data
@@ -226,6 +227,7 @@ def gen(rng, tier, index):
     if not terminal:
         # finish with a clean read-back and a probe
         ops.append({"op": "in", "ep": 1, "addr": "cur", "ack": True})
+    cfg["idle_data"] = gen_idle_data(rng)
     return {"engine": ENGINE, "config": cfg, "ops": ops}
 
 
@@ -255,6 +257,7 @@ def _gen_suspend(rng, tier, cfg, slot):
     else:
         ops.append({"op": "resume", "n": rng.randint(50, 2000)})
     if hs_capable and end != "resume":
+        cfg["idle_data"] = gen_idle_data(rng)
         return {"engine": ENGINE, "config": cfg, "ops": ops}          # high-speed detection follows: end of the run
     # life goes on: new requests (after a reset: from address 0), probes at the previous address, more resets
     for _ in range(rng.randint(1, 3)):
@@ -262,9 +265,11 @@ def _gen_suspend(rng, tier, cfg, slot):
     if rng.random() < 0.5:
         ops.append(_reset_op(rng))
         if hs_capable:
+            cfg["idle_data"] = gen_idle_data(rng)
             return {"engine": ENGINE, "config": cfg, "ops": ops}
         _episode(rng, ops, False)
     ops.append({"op": "in", "ep": 1, "addr": "cur", "ack": True})
+    cfg["idle_data"] = gen_idle_data(rng)
     return {"engine": ENGINE, "config": cfg, "ops": ops}
 
 
@@ -669,7 +674,7 @@ def run(scn):
                 raise ValueError(kind)
         yield from h.idle(SLACK + 4)
 
-    host = UTMIHost(script, byte_period=cfg["byte_period"], pre=cfg["pre"], post=cfg["post"],
+    host = UTMIHost(script, idle_data=cfg.get("idle_data"), byte_period=cfg["byte_period"], pre=cfg["pre"], post=cfg["post"],
                     txready=(cfg["txready"] if cfg["txready"] == "always" else tuple(cfg["txready"])))
     feeder = StreamFeeder("in1_", seed=len(ops))
     feeder2 = StreamFeeder("in2_", seed=len(ops) + 77)
